@@ -2,7 +2,7 @@
 import numpy as np
 
 from .. import casecheck
-from ..pool import contract, metadata_problem, core_arrays
+from ..pool import contract, metadata_problem, core_arrays, same_state
 
 ASSUME = [
     'no effective truncation (threshold 0, large rank cap) and representable ranks: inner ALS/MALS guesses of maximal ranks with full-rank interfaces',
@@ -110,7 +110,7 @@ def replay(case):
 def check_trajectory(sol, x0, Ad, steps, sch, P, isl, normalize, with_prev, prev, dims):
     if not isinstance(sol, list) or len(sol) != len(steps) + 1:
         return [('length', 'trajectory has %r entries for %d steps' % (len(sol) if isinstance(sol, list) else sol, len(steps)))]
-    if sol[0] is not x0:
+    if not same_state(sol[0], x0):
         return [('initial', 'first entry is not the initial value')]
     xs = []
     for t in sol:
@@ -194,7 +194,7 @@ def adaptive_case(ode, A, x0, guess, dims):
         out.append(('adaptive:length', '%d states for %d time points' % (len(sol), len(times))))
     if times[0] != 0 or any(b <= a for a, b in zip(times, times[1:])) or times[-1] > T:
         out.append(('adaptive:times', 'accepted time points are not strictly increasing within [0, T]: %r' % (times[:8],)))
-    if sol[0] is not x0:
+    if not same_state(sol[0], x0):
         out.append(('adaptive:initial', 'first entry is not the initial value'))
     for t in sol:
         pm = metadata_problem(t)
